@@ -1,5 +1,6 @@
 """C20 — bounded stand-in (NOT counted as proved): scripted schedules for the collector."""
 import itertools
+import random
 
 
 def standin_collector_schedules(tier, seed):
@@ -404,7 +405,71 @@ def standin_engine_unary_faults(tier, seed):
                 cases=cases, distinct=cases, failures=len(uniq), exhaustive=True, _fails=uniq[:4])
 standin_engine_unary_faults.prop = "C20"
 
-STANDINS = [standin_collector_schedules, standin_sampler_limiter, standin_engine_stream_faults, standin_pauli_sum_collector, standin_engine_unary_faults]
+def standin_local_processor_jobs(tier, seed):
+    """jobs submitted to the local simulated processor (both simulation modes; sequentially and concurrently; program ids chosen by the caller, several
+    jobs under ONE program id, or generated): every job hands back the result of ITS OWN circuit, job ids and program ids are the ones given, a
+    program lists no job of another program"""
+    import duet
+
+    import cirq
+
+    F_ = "cirq-google/cirq_google/engine/simulated_local_processor.py:SimulatedLocalProcessor.run_sweep_async"
+    try:
+        from cirq_google.engine.local_simulation_type import LocalSimulationType
+        from cirq_google.engine.simulated_local_processor import SimulatedLocalProcessor
+    except ImportError:
+        return dict(function=F_, case="local-processor-jobs", bound="cirq_google not importable", cases=0, distinct=0, failures=0, exhaustive=False, _fails=[])
+    rng = random.Random(seed + 88)
+    qs = cirq.LineQubit.range(4)
+
+    def circuit_for(i):
+        return cirq.Circuit([cirq.X(q_) for b_, q_ in zip(format(i % 16, "04b"), qs) if b_ == "1"], cirq.measure(*qs, key="m"))
+
+    cases, fails = 0, []
+    for sim_type, concurrent, ids in itertools.product((LocalSimulationType.ASYNCHRONOUS, LocalSimulationType.SYNCHRONOUS), (False, True), ("shared", "distinct", "generated")):
+        cases += 1
+        n = 12
+        proc = SimulatedLocalProcessor(processor_id="p", sampler=cirq.Simulator(seed=3), simulation_type=sim_type)
+        order = list(range(n))
+        rng.shuffle(order)
+        pid = {i: (f"user-{i % 3}" if ids == "shared" else f"user-{i}" if ids == "distinct" else None) for i in range(n)}
+
+        async def submit(i):
+            kw = dict(program_id=pid[i]) if pid[i] is not None else {}
+            job = await proc.run_sweep_async(circuit_for(i), job_id=f"job-{i}", repetitions=3, **kw)
+            res = await job.results_async()
+            return i, job, res
+
+        try:
+            if concurrent:
+                outs = duet.run(duet.pmap_async, submit, order)
+            else:
+                outs = [duet.run(submit, i) for i in order]
+        except Exception as ex:
+            fails.append(dict(args=dict(mode=str(sim_type), concurrent=concurrent, program_ids=ids), failed="local-jobs-raised", clause=f"{ex!r}"))
+            continue
+        problem = None
+        for i, job, res in outs:
+            want = [[int(b_) for b_ in format(i % 16, "04b")]] * 3
+            got = res[0].measurements["m"].astype(int).tolist() if len(res) == 1 else None
+            if got != want:
+                problem = problem or f"job-{i} (program {pid[i]}) returned {got}, its own circuit gives {want}"
+            if job.id() != f"job-{i}" or (pid[i] is not None and job.program().id() != pid[i]):
+                problem = problem or f"job-{i} reports id {job.id()} / program {job.program().id()}"
+        if ids != "generated" and not problem:
+            for i in range(n):
+                prog = proc.get_program(pid[i])
+                listed = sorted(j_.id() for j_ in prog.list_jobs())
+                mine = sorted(f"job-{k}" for k in range(n) if pid[k] == pid[i])
+                if not set(listed) <= set(mine):       # (a later submission under the same id replaces the program object: the list may be shorter)
+                    problem = problem or f"program {pid[i]} lists jobs {listed}; submitted under it: {mine}"
+        if problem:
+            fails.append(dict(args=dict(mode=str(sim_type), concurrent=concurrent, program_ids=ids, submission_order=order), failed="local-jobs", clause=problem))
+    return dict(function=F_, case="local-processor-jobs", bound="12 jobs with distinct deterministic circuits x 2 simulation modes x sequential / concurrent submission x program ids shared by 4 jobs / distinct / generated",
+                cases=cases, distinct=cases, failures=len(fails), exhaustive=True, _fails=fails[:4])
+standin_local_processor_jobs.prop = "C20"
+
+STANDINS = [standin_collector_schedules, standin_sampler_limiter, standin_engine_stream_faults, standin_pauli_sum_collector, standin_engine_unary_faults, standin_local_processor_jobs]
 
 
 def _replay_collector(ob, seed):
